@@ -380,6 +380,29 @@ def r7_split_off_checks_both_ends(ctx, P):
 from . import stale
 
 
+def r11_formatting_delegates(ctx, P, R="C09.R11"):
+    ctx.rule(R, "formatting gives String's output: Display / Debug of the string types delegate to `<str as Display / Debug>::fmt` "
+                "(which honours width, fill, alignment and precision; Debug quotes and escapes) - writing the text with write_str / "
+                "write_fmt instead drops the formatter's flags")
+    n = 0
+    for b in P.fn_bodies():
+        if b.item["name"] != "fmt":
+            continue
+        m = re.match(r"<(bump_string::BumpString|mut_bump_string::MutBumpString|fixed_bump_string::FixedBumpString)<.*> as core::fmt::(Display|Debug)>::fmt$", b.path)
+        if not m:
+            continue
+        n += 1
+        tr = m.group(2)
+        calls = [t["f"] for _, t in b.calls()]
+        deleg = [f for f in calls if f.get("path") == f"core::fmt::{tr}::fmt" and (f.get("res") or {}).get("path") == f"<str as core::fmt::{tr}>::fmt"]
+        other = [f.get("path") for f in calls if f not in deleg and f.get("name") not in ("as_str", "deref")]
+        ok = len(deleg) == 1 and not other
+        ctx.inst(R, b.path, ok, f"delegates to <str as {tr}>::fmt" if ok else
+                 f"does not (only) delegate to <str as {tr}>::fmt (other calls: {other}): `format!(\"{{:>8}}\", s)` and friends differ from String",
+                 where=b.where(), site=f"{tr} delegates to str")
+    ctx.floor(R, "Display/Debug impls of the string types", n, 6)
+
+
 def run(ctx, progs):
     ctx.assume("core::str::from_utf8, str slicing and char::encode_utf8 of the standard library are correct")
     for lab, P in progs:
@@ -395,4 +418,6 @@ def run(ctx, progs):
         stale.rule(ctx, P, "C09.R5", ("bump_string::BumpString<", "mut_bump_string::MutBumpString<"), 6, 8)
         from . import twins
         twins.rule(ctx, P, "C09.R9", "bump_string::BumpString<", "mut_bump_string::MutBumpString<", 8 if "nodefault" in (ctx.config or "") else 12)
+        c16.r1_partitions(ctx, P, R="C09.R10")
+        r11_formatting_delegates(ctx, P)
     ctx.config = None
